@@ -142,11 +142,38 @@ def run_C14(tier, seed):
     return res
 
 
+def run_C11(tier, seed):
+    q = Q(tier)
+    res = [stages.generators_stage("C11", tier, seed, threads=4 if q else 16)]
+    # the verifier's and prover's use of the table: position p carries generator (kind, party, index) in interleaved order
+    sc, _ = stages.pick_scenarios("capacity", tier, seed, lambda s: nm_of(s) <= 16, 10 if q else 80, prop="C11")
+    res.append(stages.trace_stage("C11", "layout", sc, seed, module="TraceVerify", consts={"Strict": "FALSE", "CheckArith": "TRUE", "CheckLayout": "TRUE"}, calls="verify"))
+    res.append(stages.trace_stage("C11", "commit-layout", sc, seed, module="TraceProve", consts=TP_CONSTS, calls="prove"))
+    return res
+
+
 def run_C15(tier, seed):
     q = Q(tier)
     res = [stages.cases_stage("C15", "MC_Codec", tier, seed, invariants="C15 Total")]
     # every proof the prover can output: length formula, decode(encode(p)) == p, encode(decode(b)) == b
     res.append(stages.api_stage("C15", "roundtrip", tier, seed))
+    return res
+
+
+def run_C16(tier, seed):
+    q = Q(tier)
+    res = [stages.cases_stage("C16", "MC_Codec", tier, seed, invariants="C15 Total")]
+    # uniformly random strings of every length, with a random and with a plausible first byte
+    raw = [{"op": "decode_raw", "len": ln, "fbmode": fm, "expect": "nopanic"} for ln in range(0, 1201 if not q else 700) for fm in (0, 1)]
+    res.append(stages.raw_cases_stage("C16", "random-strings", raw, seed))
+    # hostile proof shapes against every statement shape and mode: release (overflow checks on) and dev profile
+    res.append(stages.api_stage("C16", "hostile", tier, seed))
+    d = stages.api_stage("C16", "hostile", tier, seed, groups=("fm",) if q else ("fm", "rist"), profile="dev")
+    d.name += "@dev"
+    res.append(d)
+    res.append(stages.api_stage("C16", "alter", tier, seed, groups=("rist",)))
+    b = stages.api_stage("C16", "batch", tier, seed, groups=("fm",), filter_fn=lambda s: s["sc"]["skew"] != [0, 0, 0] or len(s["sc"]["members"]) > 4)
+    res.append(b)
     return res
 
 
@@ -169,7 +196,13 @@ def run_C10(tier, seed):
 
 
 def run_C12(tier, seed):
-    return [stages.api_stage("C12", "capacity", tier, seed)]
+    q = Q(tier)
+    res = [stages.api_stage("C12", "capacity", tier, seed)]
+    # static scalar vector = 2*n*cap_max entries, zero beyond the largest member, generator j of party i independent of capacity
+    sc, _ = stages.pick_scenarios("capacity", tier, seed, lambda s: nm_of(s) <= 16, 12 if q else 100, prop="C12")
+    res.append(stages.trace_stage("C12", "padding", sc, seed, module="TraceVerify", consts={"Strict": "FALSE", "CheckArith": "TRUE", "CheckLayout": "TRUE"}, calls="verify"))
+    res.append(stages.simple_mc_stage("C12", "MC_Generators", "CONSTANTS MaxParty = 32 MaxIdx = 64\nSPECIFICATION Spec\nINVARIANTS Injective Layout CapIndep\nCHECK_DEADLOCK FALSE\n", workers=2))
+    return res
 
 
 CHECKS = {
@@ -179,8 +212,10 @@ CHECKS = {
     "C04": {"run": run_C04, "level": "model_checking"},
     "C05": {"run": run_C05, "level": "model_checking"},
     "C08": {"run": run_C08, "level": "model_checking"},
+    "C11": {"run": run_C11, "level": "model_checking"},
     "C13": {"run": run_C13, "level": "model_checking"},
     "C15": {"run": run_C15, "level": "model_checking"},
+    "C16": {"run": run_C16, "level": "model_checking"},
     "C17": {"run": run_C17, "level": "model_checking"},
     "C14": {"run": run_C14, "level": "model_checking"},
     "C06": {"run": run_C06, "level": "model_checking"},
@@ -198,6 +233,8 @@ def replay(rep):
         return stages.replay_trace(rep)
     if rep["kind"] == "case":
         return stages.replay_case(rep)
+    if rep["kind"] == "gens":
+        return stages.replay_gens(rep)
     raise vlib.ToolError("unknown replay kind " + rep["kind"])
 
 
